@@ -35,6 +35,12 @@ type facts struct {
 	Plugins         []string
 	IPFilterUsesHeaders bool
 	IPFilterFailOpen    bool
+	StopSequence        []string
+	WgAddFuncs          []string
+	FanoutCallers       []string
+	ProbeChecksCtxFirst bool
+	ProbeBoundToCtx     bool
+	GracefulSequence    []string
 	Problems        []string
 }
 
@@ -351,6 +357,109 @@ func main() {
 		})
 	}
 
+	// shutdown protocol (C19): order of the significant actions in Stop, who calls wg.Add,
+	// who starts a fan-out, whether a probe looks at the context first
+	selText := func(e ast.Expr) string {
+		var parts []string
+		for {
+			se, ok := e.(*ast.SelectorExpr)
+			if !ok {
+				if id, ok := e.(*ast.Ident); ok {
+					parts = append([]string{id.Name}, parts...)
+				}
+				break
+			}
+			parts = append([]string{se.Sel.Name}, parts...)
+			e = se.X
+		}
+		return strings.Join(parts, ".")
+	}
+	if fd := findFunc(lb, "LoadBalancer", "Stop"); fd != nil {
+		ast.Inspect(fd, func(n ast.Node) bool {
+			switch x := n.(type) {
+			case *ast.CallExpr:
+				switch selText(x.Fun) {
+				case "lb.cancel":
+					f.StopSequence = append(f.StopSequence, "cancel")
+				case "lb.healthCheckWg.Wait":
+					f.StopSequence = append(f.StopSequence, "wgWait")
+				case "lb.wsPool.Shutdown":
+					f.StopSequence = append(f.StopSequence, "poolShutdown")
+				}
+			case *ast.UnaryExpr:
+				if x.Op == token.ARROW && selText(x.X) == "lb.healthLoopDone" {
+					f.StopSequence = append(f.StopSequence, "joinLoop")
+				}
+			}
+			return true
+		})
+	} else {
+		problem("LoadBalancer.Stop not found")
+	}
+	for _, file := range lb {
+		for _, d := range file.Decls {
+			fd, ok := d.(*ast.FuncDecl)
+			if !ok {
+				continue
+			}
+			ast.Inspect(fd, func(n ast.Node) bool {
+				if ce, ok := n.(*ast.CallExpr); ok {
+					switch selText(ce.Fun) {
+					case "lb.healthCheckWg.Add":
+						f.WgAddFuncs = append(f.WgAddFuncs, fd.Name.Name)
+					case "lb.checkBackendsHealth":
+						f.FanoutCallers = append(f.FanoutCallers, fd.Name.Name)
+					}
+				}
+				return true
+			})
+		}
+	}
+	sort.Strings(f.WgAddFuncs)
+	sort.Strings(f.FanoutCallers)
+	dedup := func(l []string) []string {
+		var out []string
+		for i, x := range l {
+			if i == 0 || x != l[i-1] {
+				out = append(out, x)
+			}
+		}
+		return out
+	}
+	f.WgAddFuncs, f.FanoutCallers = dedup(f.WgAddFuncs), dedup(f.FanoutCallers)
+	if fd := findFunc(lb, "LoadBalancer", "checkBackendHealth"); fd != nil && len(fd.Body.List) > 0 {
+		if ss, ok := fd.Body.List[0].(*ast.SelectStmt); ok {
+			ast.Inspect(ss, func(n ast.Node) bool {
+				if ce, ok := n.(*ast.CallExpr); ok && selText(ce.Fun) == "lb.ctx.Done" {
+					f.ProbeChecksCtxFirst = true
+				}
+				return true
+			})
+		}
+	}
+	if fd := findFunc(lb, "LoadBalancer", "performHealthCheck"); fd != nil {
+		ast.Inspect(fd, func(n ast.Node) bool {
+			if ce, ok := n.(*ast.CallExpr); ok && selText(ce.Fun) == "http.NewRequestWithContext" && len(ce.Args) > 0 && selText(ce.Args[0]) == "lb.ctx" {
+				f.ProbeBoundToCtx = true
+			}
+			return true
+		})
+	}
+	mainPkg := parseDir(filepath.Join(repo, "cmd/helios"))
+	if fd := findFunc(mainPkg, "", "shutdownGracefully"); fd != nil {
+		ast.Inspect(fd, func(n ast.Node) bool {
+			if ce, ok := n.(*ast.CallExpr); ok {
+				switch selText(ce.Fun) {
+				case "server.Shutdown":
+					f.GracefulSequence = append(f.GracefulSequence, "serverShutdown")
+				case "lb.Stop":
+					f.GracefulSequence = append(f.GracefulSequence, "lbStop")
+				}
+			}
+			return true
+		})
+	}
+
 	// registered plugins
 	for _, file := range pl {
 		ast.Inspect(file, func(n ast.Node) bool {
@@ -411,6 +520,12 @@ func main() {
 	sb.WriteString("]\n")
 	fmt.Fprintf(&sb, "def ipFilterUsesHeaders : Bool := %s\n", b(f.IPFilterUsesHeaders))
 	fmt.Fprintf(&sb, "def ipFilterFailOpen : Bool := %s\n", b(f.IPFilterFailOpen))
+	fmt.Fprintf(&sb, "def stopSequence : List String := %s\n", q(f.StopSequence))
+	fmt.Fprintf(&sb, "def wgAddFuncs : List String := %s\n", q(f.WgAddFuncs))
+	fmt.Fprintf(&sb, "def fanoutCallers : List String := %s\n", q(f.FanoutCallers))
+	fmt.Fprintf(&sb, "def probeChecksCtxFirst : Bool := %s\n", b(f.ProbeChecksCtxFirst))
+	fmt.Fprintf(&sb, "def probeBoundToCtx : Bool := %s\n", b(f.ProbeBoundToCtx))
+	fmt.Fprintf(&sb, "def gracefulSequence : List String := %s\n", q(f.GracefulSequence))
 	fmt.Fprintf(&sb, "def extractionProblems : List String := %s\n", q(f.Problems))
 	sb.WriteString("\nend Helios.Facts\n")
 	fmt.Print(sb.String())
